@@ -86,7 +86,10 @@ def run_cases(rec, tier, seed):
                 way_back(rec, idx2, rnd)
     # dtype-boundary values, negatives, zero rows
     for vals in ([255, 256], [65535, 65536], [2 ** 31 - 1, 2 ** 31], [-1, 0, -1, 2], [-129, 127], [2 ** 40, 0],
-                 [-(2 ** 40), 5], [2 ** 63 - 1, 0, 2 ** 63 - 1]):
+                 [-(2 ** 40), 5], [2 ** 63 - 1, 0, 2 ** 63 - 1],
+                 # every signed boundary from both sides, next to a negative value
+                 [-1, 127], [-1, 128], [-128, 128], [-129, 5], [-1, 32767], [-1, 32768], [-32768, 32768], [-32769, 1],
+                 [-1, 2 ** 31 - 1], [-1, 2 ** 31], [-(2 ** 31), 2 ** 31], [-(2 ** 31) - 1, 0], [-(2 ** 63), 2 ** 63 - 1]):
         for common in (None, vals[0], vals[-1]):
             for counts in (None, {v: vals.count(v) for v in set(vals)}):
                 a = np.array(vals, dtype=np.int64)
